@@ -44,7 +44,7 @@ func init() {
 	mc.Register(&mc.Check{
 		ID:    "C06",
 		Level: "exploration",
-		Rule: "engine P: radii {0,0.5,1,3,20,-3}^2 x rotation {0,1/24,1/8,1/4,0.3,0.5,0.9,-0.1,1.25} x 4 flag combinations x start and end points from a 7x7 (thorough 12x12) lattice (start != end) x {absolute, relative} x 4 viewBoxes x 3 rectangles (non-uniform scale, off-origin), each driven into a real Renderer over a recording rasteriser. " +
+		Rule: "engine P: radii {0,0.5,1,3,20,-3}^2 x rotation {0,1/24,1/8,1/4,0.3,0.5,0.9,-0.1,1.25} x 4 flag combinations x start and end points from a 7x7 (thorough 12x12) lattice plus three end points 1/64 away from the start (start != end) x {absolute, relative} x 4 viewBoxes x 3 rectangles (non-uniform scale, off-origin), each driven into a real Renderer over a recording rasteriser. " +
 			"Oracle: zero radius => one LineTo to the mapped end point; else 1..4 CubeTo ending at the mapped end point; every cubic's end point and its points at t=1/4,1/2,3/4, un-mapped to viewBox space, lie on the ellipse given by an independent SVG F.6.5 centre computation (radii scaled up when too small); the accumulated sweep has the sign of the sweep flag and exceeds a half turn iff large-arc. " +
 			"distinct = (number of cubics, scaled-up, flags, zero radius); non-trivial = arc emitted as cubics",
 		Assumptions: []string{"configurations within 1e-6 of a half turn are skipped and counted (flags do not determine the arc there)", "tolerances: 1e-4 R for end points, 5e-4 R for interior points (standard 4/3 tan(theta/4) construction, <= 90 degree pieces)"},
@@ -56,7 +56,11 @@ func init() {
 			st := &c06State{w: w}
 			for fl := 0; fl < 4; fl++ {
 				for _, p1 := range pts {
-					for _, p2 := range pts {
+					// end points: the lattice, plus three points 1/64 away from the start (near-complete
+					// ellipses with the large-arc flag, slivers without; sub-pixel chords at small scales)
+					ends := append(append(st.ends[:0], pts...), [2]float32{p1[0] + 1.0/64, p1[1]}, [2]float32{p1[0], p1[1] - 1.0/64}, [2]float32{p1[0] - 1.0/64, p1[1] + 1.0/64})
+					st.ends = ends
+					for _, p2 := range ends {
 						if p1 == p2 {
 							continue
 						}
@@ -92,8 +96,9 @@ func init() {
 }
 
 type c06State struct {
-	w   *mc.W
-	ras rec.Raster
+	w    *mc.W
+	ends [][2]float32
+	ras  rec.Raster
 }
 
 func cubicAt(p0x, p0y float64, c *rec.RCall, t float64) (float64, float64) {
@@ -191,8 +196,22 @@ func (st *c06State) check(cs *c06Case) {
 	if arc.Scaled && math.Abs(math.Abs(arc.DTheta)-math.Pi) < 1e-3 {
 		// scaled-up radii always give a half turn; the centre is then ill-conditioned in the flags
 	}
-	R := math.Max(arc.RX, arc.RY)
-	_ = R
+	// conditioning: the Renderer works from the float32 pen position; when the chord is much
+	// shorter than the radii the centre moves by (rounding error) x (radius / chord). The
+	// tolerance is widened by the movement of the reference centre under a 2-ulp perturbation
+	// of the start point (negligible on the lattice proper, ~1e-4 for the 1/64 chords).
+	eps := math.Ldexp(math.Max(1, math.Max(math.Max(math.Abs(sx1), math.Abs(sy1)), math.Max(math.Abs(sx2), math.Abs(sy2)))), -22)
+	cond := 0.0
+	for _, d := range [4][2]float64{{eps, 0}, {-eps, 0}, {0, eps}, {0, -eps}} {
+		pa := ref.ArcCenter(sx1+d[0], sy1+d[1], sx2, sy2, float64(rx), float64(ry), 2*math.Pi*float64(rot), cs.LA, cs.SW)
+		cond = math.Max(cond, math.Hypot(pa.CX-arc.CX, pa.CY-arc.CY)/math.Min(arc.RX, arc.RY))
+	}
+	if !(cond < 2e-3) {
+		w.Skip()
+		w.Count("skipped_short_chord_conditioning", 1)
+		return
+	}
+	w.CountMax("conditioning_x1e9", int64(cond*1e9))
 	px, py := penX, penY
 	sum := 0.0
 	prevAng := arc.AngleOf(sx1, sy1)
@@ -205,7 +224,7 @@ func (st *c06State) check(cs *c06Case) {
 			if t == 1 {
 				tol = 1e-4
 			}
-			if d := arc.OnEllipse(ux, uy); !(d <= tol) {
+			if d := arc.OnEllipse(ux, uy); !(d <= tol+cond) {
 				key := "off-ellipse:interior"
 				if t == 1 {
 					key = "off-ellipse:endpoint"
@@ -237,7 +256,7 @@ func (st *c06State) check(cs *c06Case) {
 			return
 		}
 	}
-	if math.Abs(sum-arc.DTheta) > 1e-3 {
+	if math.Abs(sum-arc.DTheta) > 1e-3+2*cond {
 		fail("sweep-extent", fmt.Sprintf("accumulated sweep %.4f rad, reference %.4f rad", sum, arc.DTheta))
 		return
 	}
